@@ -356,15 +356,24 @@ def scen_aged_race(ctx, exp):
         a.wait()
         ctx.skip('aged race: compiler phase not observed (hooks missing?)')
         return
-    old = time.time() - 3600
-    for root, dirs, files in os.walk(cache / 'pyiga'):
-        for nm in dirs + files:
-            try:
-                os.utime(os.path.join(root, nm), (old, old))
-            except OSError:
-                pass
+    stop = threading.Event()
+
+    def age():      # keep every artefact (files and directories) one hour old for as long as the race lasts
+        while not stop.is_set():
+            old = time.time() - 3600
+            for root, dirs, files in os.walk(cache / 'pyiga'):
+                for nm in dirs + files:
+                    try:
+                        os.utime(os.path.join(root, nm), (old, old))
+                    except OSError:
+                        pass
+            time.sleep(0.02)
+    th = threading.Thread(target=age, daemon=True)
+    th.start()
     b = Child(cache, ['mass5'], trace=trace, tag='b')
     ra, rb = a.wait(), b.wait()
+    stop.set()
+    th.join(timeout=2)
     judge(ctx, exp, a, ra, 'race=aged proc=A (artefacts back-dated by 1 h while compiling)', {})
     judge(ctx, exp, b, rb, 'race=aged proc=B (artefacts back-dated by 1 h while A compiles)', {})
     ctx.case(('race', 'aged'), sample=None)
